@@ -15,4 +15,5 @@ TARGETS = {
     "c03_results": dict(flavours=["seq", "fast"], src=["harness/c03_results.cpp"], net=1),
     "c14_clearhash": dict(flavours=["seq", "fast"], src=["harness/c14_clearhash.cpp"], net=1),
     "c11_draws": dict(flavours=["seq", "fast"], src=["harness/c11_draws.cpp"], net=1),
+    "c08_tt": dict(flavours=["sched", "sched-asan"], src=["harness/c08_tt.cpp"], net="stub"),
 }
